@@ -134,6 +134,21 @@ def run(ctx):
             kill = set(rng.sample(atoms, rng.randrange(1, 30)))
             pa.append((f"{name}-protonate-all-del-{k}", C.join([ln for i, ln in enumerate(lines) if i not in kill]), ["--protonate-all"]))
     cases += pa
+    # ensembles in which ONE model is truncated: a whole residue (first, inner, last), the terminal oxygen, a side chain
+    ens = [ln for ln in C.chain_lines("1HPX", "A", 0, 12) + [C.TER] + C.chain_lines("1HPX", "B", 0, 8) + [C.TER]]
+    eids = []
+    for ln in ens:
+        if C.is_atom(ln) and C.resid(ln) not in eids:
+            eids.append(C.resid(ln))
+    cuts = [("first-residue", lambda ln: C.resid(ln) == eids[0]), ("inner-residue", lambda ln: C.resid(ln) == eids[5]),
+            ("last-residue-of-A", lambda ln: C.resid(ln) == eids[11]), ("OXT-of-A", lambda ln: ln[21] == "A" and ln[12:16].strip() == "OXT"),
+            ("first-residue-of-B", lambda ln: C.resid(ln) == eids[12]),
+            ("side-chains", lambda ln: ln[17:20] in ("LYS", "ARG", "GLU", "ASP") and ln[12:16].strip() not in ("N", "CA", "C", "O", "CB", "OXT"))]
+    full_ = "\n".join(ens)
+    for tag, pred in cuts if ctx.thorough() else cuts[:: 1]:
+        cut_ = "\n".join(ln for ln in ens if not (C.is_atom(ln) and pred(ln)))
+        for order_, (m1, m2) in (("cut-second", (full_, cut_)), ("cut-first", (cut_, full_))):
+            cases.append((f"ensemble-{tag}-{order_}", f"MODEL        1\n{m1}\nENDMDL\nMODEL        2\n{m2}\nENDMDL\nEND\n", []))
     recs, metas, _ = runbank.run_and_record(ctx, cases)
     texts = {c[0]: c[1] for c in cases}
     for m in metas:
